@@ -47,6 +47,11 @@ pub fn hexify(buf: &[u8]) -> String {
 }
 /// Convert a hex string into a byte vector
 pub fn unhexify(s: &str) -> Result<Vec<u8>, ParseIntError> {
+    // only even-length strings of ASCII hex digits are valid: no slicing out of range
+    // or inside a multi-byte character, no sign characters accepted by from_str_radix
+    if s.len() % 2 != 0 || !s.bytes().all(|b| b.is_ascii_hexdigit()) {
+        return Err(u8::from_str_radix("", 16).unwrap_err());
+    }
     (0..s.len())
         .step_by(2)
         .map(|i| u8::from_str_radix(&s[i..i + 2], 16))
